@@ -2282,7 +2282,7 @@ class StructuredTopology(TransformChainsTopology):
                 m = m[:n]
                 k = k[:n]
                 nd = m.sum()
-                while m[n:].sum() < p - m[0] + 2:
+                while m[n:].sum() < max(p, p - m[0] + 2):  # element n-1 needs p knots beyond its right end
                     k = numpy.concatenate([k, k+dk])
                     m = numpy.concatenate([m, m])
                     dk *= 2
